@@ -691,6 +691,80 @@ def countLost (t : Transport) : List TFlight → Nat
   | [] => 0
   | f :: fs => (if f.arrived && responseLost t f.delay then 1 else 0) + countLost t fs
 
+/-! ## round 3: the provider's `limit`, shared clients, followed redirects, the body under the gun's optional features -/
+
+/-- the provider's `limit` option (0 = none): at most `lim` ammo are delivered. Without preload the decoder is not asked for
+more (provider.go runFullScan checks the limit before it scans), so a decode error or a panic further on is never met; with
+preload a whole pass is decoded first (`provide` delivers nothing when that fails). -/
+def provideLim (pre : Bool) (f : Format) (conf : Hdr) (items : List Item) (passes lim : Nat) : List Req × Status :=
+  let out := provide pre f conf items passes
+  if lim = 0 then out
+  else if lim ≤ out.1.length then (out.1.take lim, .ok)
+  else out
+
+/-- `shared-client` (guns/http/base.go prepareClientPool, Bind; core/clientpool Pool.Next): WarmUp builds `client-number`
+clients (at least one), the k-th gun to be bound takes `pool[(k+1) % len]` (`Next` adds one to its counter first) -/
+def clientOf (clients gun : Nat) : Nat := (gun + 1) % max clients 1
+
+/-- a flight as the SHARED transports see it: the index of the client stands for the index of the gun -/
+def viaShared (clients : Nat) (f : Flight) : Flight := { f with gun := clientOf clients f.gun }
+
+def TFlight.viaShared (clients : Nat) (f : TFlight) : TFlight := { f with gun := clientOf clients f.gun }
+
+/-- requests that reach the host a redirecting target points to: the gun's client follows redirects only when the
+operator sets `redirect: true` (client.go NewRedirectingClient); then every answered request is followed once -/
+def decoyHits (redirect targetRedirects : Bool) (arrived : Nat) : Nat :=
+  if redirect && targetRedirects then arrived else 0
+
+/-- `req.Body` as an io.Reader over the entry's body: `present` = `req.Body != nil && req.Body != http.NoBody`,
+`rest` = the bytes a reader still gets (what the transport will put on the wire) -/
+structure BodyRd where
+  present : Bool
+  rest : Str
+  deriving DecidableEq, Repr
+
+/-- the body http.NewRequest / http.ReadRequest give a request -/
+def BodyRd.fresh (body : Str) : BodyRd := { present := body != [], rest := body }
+
+/-- ioutil.ReadAll(req.Body): everything that is left, nothing is left afterwards -/
+def BodyRd.readAll (b : BodyRd) : Str × BodyRd := (b.rest, { b with rest := [] })
+
+/-- `ioutil.NopCloser(bytes.NewBuffer(bs))` -/
+def BodyRd.ofBytes (bs : Str) : BodyRd := { present := true, rest := bs }
+
+/-- guns/http/base.go GetBody (answer log): read the body and put an equal one back; the bytes read are kept for the log -/
+def getBody (b : BodyRd) : Option Str × BodyRd :=
+  if b.present then
+    let read := b.readAll
+    (some read.1, BodyRd.ofBytes read.1)
+  else (none, b)
+
+/-- the same without the put-back (a mutant the bridge lemma must refuse): the transport would send an empty body -/
+def getBodyNoPutBack (b : BodyRd) : Option Str × BodyRd :=
+  if b.present then
+    let read := b.readAll
+    (some read.1, read.2)
+  else (none, b)
+
+/-- httputil.DumpRequest(req, true) (library): saves the body and restores it -/
+def dumpRequestBody (b : BodyRd) : BodyRd := if b.present then BodyRd.ofBytes b.readAll.1 else b
+
+/-- the gun's optional features that see the request before Client.Do (all off by default) -/
+structure Feat where
+  debugLog : Bool := false
+  autoTag : Bool := false
+  answLog : Bool := false
+  trace : Bool := false
+  dump : Bool := false
+  deriving DecidableEq, Repr
+
+/-- the body reader Client.Do is handed, after the option-guarded blocks of BaseGun.Shoot in source order: the debug log and
+auto-tag only read `req.URL`; the answer log calls GetBody; the trace replaces `req` by a shallow copy with another context
+(`req.WithContext`: same Body); the dump calls httputil.DumpRequest -/
+def bodyAtDo (ft : Feat) (b : BodyRd) : BodyRd :=
+  let b := if ft.answLog then (getBody b).2 else b
+  if ft.dump then dumpRequestBody b else b
+
 /-! ## transport + server (net/http; observed, not proved) -/
 
 def validValueByte (c : Nat) : Bool := (decide (32 ≤ c) && c != 127) || c == 9
